@@ -5,6 +5,7 @@ import (
 	"go/ast"
 	"go/token"
 	"go/types"
+	"strings"
 
 	"golang.org/x/tools/go/cfg"
 
@@ -696,5 +697,129 @@ func ruleWatchInputsNotMutated(c *core.Ctx) {
 		}
 		c.Check(bad == nil, rule, key, pos, "read only",
 			why+": the watcher passes the same map to every regeneration, so the overrides given on the command line are gone (or altered) from the second regeneration on and the output no longer equals a one-shot run")
+	}
+}
+
+// T3b: a path worked out under a temporary working directory does not depend on it afterwards. fetchAndCachePackages
+// changes into the importing package's directory (and changes back on return) so that relative import paths resolve
+// against the importer; every function it calls while there must therefore hand back ABSOLUTE paths on success — a
+// relative result is resolved later against whatever the process directory is then (the root package's), so a nested
+// package's `../x` import points somewhere else.
+func ruleTemporaryCwdPathsAbsolute(c *core.Ctx) {
+	const rule = "T3b"
+	c.Rule(rule, "pkg/packaging: every function called between os.Chdir(dir) and its deferred restore returns, with a nil error, only paths that went through filepath.Abs (or come from another module function), never the raw or merely cleaned import path", 1)
+	n := 0
+	for _, d := range c.AllDecls() {
+		p := c.DeclPkg(d)
+		if p == nil || d.Body == nil || !strings.HasSuffix(p.PkgPath, "/pkg/packaging") {
+			continue
+		}
+		info := p.TypesInfo
+		// a temporary chdir: os.Chdir(x) and `defer os.Chdir(...)`
+		hasChdir, hasDefer := false, false
+		ast.Inspect(d.Body, func(x ast.Node) bool {
+			if ds, ok := x.(*ast.DeferStmt); ok {
+				if f := core.Callee(info, ds.Call); f != nil && core.FullName(f) == "os.Chdir" {
+					hasDefer = true
+				}
+			} else if ce, ok := x.(*ast.CallExpr); ok {
+				if f := core.Callee(info, ce); f != nil && core.FullName(f) == "os.Chdir" {
+					hasChdir = true
+				}
+			}
+			return true
+		})
+		if !hasChdir || !hasDefer {
+			continue
+		}
+		for _, cs := range c.Calls(d) {
+			if cs.Callee == nil || cs.Callee.Pkg() != p.Types {
+				continue
+			}
+			cd := c.Decl(cs.Callee)
+			if cd == nil || cd.Body == nil {
+				continue
+			}
+			sig := cs.Callee.Type().(*types.Signature)
+			if sig.Results().Len() != 2 || !core.IsErrorType(sig.Results().At(1).Type()) {
+				continue
+			}
+			if b, ok := sig.Results().At(0).Type().Underlying().(*types.Basic); !ok || b.Kind() != types.String {
+				continue
+			}
+			// single definitions of locals in the callee
+			defs := map[types.Object][]ast.Expr{}
+			ast.Inspect(cd.Body, func(x ast.Node) bool {
+				if as, ok := x.(*ast.AssignStmt); ok {
+					for i, l := range as.Lhs {
+						if o := identObj(info, l); o != nil {
+							if len(as.Rhs) == len(as.Lhs) {
+								defs[o] = append(defs[o], as.Rhs[i])
+							} else if len(as.Rhs) == 1 && i == 0 {
+								defs[o] = append(defs[o], as.Rhs[0])
+							} else {
+								defs[o] = append(defs[o], nil)
+							}
+						}
+					}
+				}
+				return true
+			})
+			var absolute func(e ast.Expr, depth int) bool
+			absolute = func(e ast.Expr, depth int) bool {
+				if depth > 4 {
+					return false
+				}
+				switch x := ast.Unparen(e).(type) {
+				case *ast.Ident:
+					ds := defs[info.ObjectOf(x)]
+					if len(ds) == 0 {
+						return false
+					}
+					for _, rhs := range ds {
+						if rhs == nil || !absolute(rhs, depth+1) {
+							return false
+						}
+					}
+					return true
+				case *ast.CallExpr:
+					f := core.Callee(info, x)
+					if f == nil {
+						return false
+					}
+					if core.FullName(f) == "path/filepath.Abs" {
+						return true
+					}
+					if core.InModule(f) {
+						return true // another function of the module: judged where it is defined
+					}
+					switch core.FullName(f) {
+					case "path/filepath.Clean", "path/filepath.Join", "path.Join", "path.Clean", "path/filepath.FromSlash":
+						return len(x.Args) > 0 && absolute(x.Args[0], depth+1)
+					}
+				}
+				return false
+			}
+			ast.Inspect(cd.Body, func(x ast.Node) bool {
+				if _, isLit := x.(*ast.FuncLit); isLit {
+					return false
+				}
+				r, ok := x.(*ast.ReturnStmt)
+				if !ok || len(r.Results) != 2 {
+					return true
+				}
+				if tv := info.Types[r.Results[1]]; !tv.IsNil() {
+					return true
+				}
+				n++
+				key := c.FuncName(cd) + "/return " + types.ExprString(r.Results[0])
+				c.Check(absolute(r.Results[0], 0), rule, key, r.Pos(), "absolute before it leaves the temporary working directory",
+					"`"+types.ExprString(r.Results[0])+"` is returned without filepath.Abs while the working directory is only temporarily the importing package's: a relative import of a nested package is later resolved against the root package's directory — the wrong package (or none) is loaded")
+				return true
+			})
+		}
+	}
+	if n == 0 {
+		c.Undecided(rule, "temporary chdir", 0, "no function called under a temporary os.Chdir returns a path")
 	}
 }
